@@ -820,7 +820,7 @@ func (x *Exec) frameCheck(s *State, env *SpecEnv) {
 	for _, h := range names {
 		cur := s.heap[h]
 		ent, ok := x.entryHeap[h]
-		if !ok || cur == ent {
+		if !ok || cur == ent || h == "$alloc" {
 			continue
 		}
 		srt := x.E.HeapSorts[h]
